@@ -56,6 +56,15 @@ def directed_cases(tier):
                 ]
                 for i, ops in enumerate(layouts):
                     out.append({"cfg": cfg, "ops": ops, "path": "py" if (i + nsub) % 2 else "c", "reads": []})
+    # large files (10^5 slots): the recording starts in the middle of a file and runs to its end and beyond; a later
+    # file is written from its first slot to somewhere inside; a third only in the middle
+    for kind, size, order, cplx in (("i", 2, "<", 0), ("f", 4, ">", 1), ("i", 4, ">", 0), ("f", 8, "<", 0)):
+        cfg = {"kind": kind, "size": size, "order": order, "cplx": cplx, "form": "struct", "nsub": 1, "n": 100000, "d": 1,
+               "F": 1000, "S": 10, "cont": 1, "comp": 0, "checksum": 0, "salt": 78, "uuid": "verif", "start": 170000000000000 + 30000}
+        ops = [{"op": "w", "idx": 0, "len": 70000}, {"op": "w", "idx": 70000, "len": 5000},
+               {"op": "w", "idx": 270000, "len": 40000}, {"op": "w", "idx": 420000, "len": 100}]
+        for path in ("py", "c"):
+            out.append({"cfg": cfg, "ops": ops, "path": path, "reads": []})
     return out
 
 
